@@ -34,7 +34,12 @@ B32BadCases == \A b \in 0..255 : \A n \in 1..3 : \A p \in 1..n :
 
 \* NewIdGenerator(randBit): <= 1 -> 16, > 22 -> 22
 EffBits(rb) == IF rb <= 1 THEN 16 ELSE IF rb > 22 THEN 22 ELSE rb
-IdLayoutCases == \A rb \in -2..26 : Emit([fn |-> "idlayout", s |-> <<>>, a |-> <<rb>>, out |-> <<EffBits(rb)>>])
+\* the time field has 41 bits whatever randBit is: generators whose start time lies e milliseconds in the past, with e
+\* small, either side of 2^40 (the ids taken 2 ms apart straddle the mark) and just below 2^41
+\* (TLC integers have 32 bits: e is written <<b, k, d>> for b * 2^k + d)
+Elapsed == {<<0, 0, 12345678>>, <<1, 40, -3>>, <<1, 40, 5>>, <<1, 41, -100000>>}
+IdLayoutCases == \A rb \in -2..26 : \A e \in Elapsed :
+    Emit([fn |-> "idlayout", s |-> <<>>, a |-> <<rb>> \o e, out |-> <<EffBits(rb)>>])
 
 -----------------------------------------------------------------------------
 \* StrGenerator: charset of c runes; an index has Bits(c) bits; 63 \div Bits(c) indices are cut from one word
